@@ -107,6 +107,9 @@ pub enum SOp {
     Env { func: u8, len: u32, off: u32 },
     /// `upgrade(module_ref)`: always interrupts; the chain answers as scripted.
     Upgrade { resp: Response },
+    /// `memory.grow(pages)`; the module declares room for two more pages, larger requests fail (and
+    /// are charged all the same).
+    MemGrow { pages: u32 },
     /// A state operation with a pointer/length pair outside linear memory (must trap).
     OutOfBounds { func: u8, ptr: u32, len: u32 },
     /// Recurse `n` frames down, perform a transfer (interrupt) at the bottom, then recurse `m`
@@ -352,6 +355,13 @@ fn other_payload0(tag: u32) -> Vec<u8> {
     }
 }
 
+/// Declared maximum of the linear memory: the initial page, the pages of a final `memory.grow`, and
+/// two spare pages when a script grows the memory in its middle.
+fn max_pages(plan: &VPlan) -> u32 {
+    let mid = plan.scripts.iter().any(|s| s.ops.iter().any(|o| matches!(o, SOp::MemGrow { .. })));
+    1 + plan.tail_grow.unwrap_or(0) + if mid { 2 } else { 0 }
+}
+
 /// Emit the module for a plan: one exported function per script.
 pub fn emit_module(plan: &VPlan) -> Vec<u8> {
     let imports: Vec<Import> = HOSTS
@@ -384,6 +394,10 @@ pub fn emit_module(plan: &VPlan) -> Vec<u8> {
                     res_addr,
                     Expr::Un(0xad, Box::new(Expr::Call(down, vec![i32c(*n), i32c(*m)]))),
                 ));
+                continue;
+            }
+            if let SOp::MemGrow { pages } = op {
+                body.push(Stmt::Store(0x37, 0, res_addr, Expr::Un(0xad, Box::new(Expr::MemoryGrow(Box::new(i32c(*pages)))))));
                 continue;
             }
             // (host index, args)
@@ -430,7 +444,7 @@ pub fn emit_module(plan: &VPlan) -> Vec<u8> {
                     11 => (30, vec![i32c(0x100), i32c(0x100), i32c(0x100)]),
                     _ => (31, vec![i32c(rb), i32c((*len).min(64)), i32c(*off)]),
                 },
-                SOp::DeepCall { .. } => unreachable!(),
+                SOp::DeepCall { .. } | SOp::MemGrow { .. } => unreachable!(),
                 SOp::OutOfBounds { func, ptr, len } => match func % 10 {
                     0 => (0, vec![i32c(*ptr), i32c(*len)]),
                     1 => (1, vec![i32c(*ptr), i32c(*len)]),
@@ -560,7 +574,7 @@ pub fn emit_module(plan: &VPlan) -> Vec<u8> {
         imports,
         funcs,
         exports,
-        memory: Some((1, Some(1 + plan.tail_grow.unwrap_or(0)))),
+        memory: Some((1, Some(max_pages(plan)))),
         globals: Vec::new(),
         table: Vec::new(),
         data: datas,
@@ -612,6 +626,8 @@ struct MCtx<'a> {
     queries: bool,
     sig_checks: bool,
     inspection: bool,
+    /// current size of the linear memory of the running activation, in pages
+    pages: u32,
     /// Events of the outermost activation, as the chain receives them: one section per
     /// state-affecting interrupt (transfer, call, upgrade) plus the final one; queries do not
     /// end a section. Each event is represented by its length.
@@ -633,7 +649,7 @@ struct MCtx<'a> {
 fn model_write_output(ctx: &mut MCtx, start: u64, bytes: &[u8], off: u32) -> Option<u64> {
     let len = bytes.len();
     ctx.min_energy += 10 + len as u64;
-    if start + len as u64 > MEM {
+    if start + len as u64 > MEM * ctx.pages as u64 {
         return None;
     }
     let off = off as usize;
@@ -985,7 +1001,7 @@ fn model_run(plan: &VPlan, si: usize, st: &mut MState, ctx: &mut MCtx) -> MOutco
                 None => NONE32,
             }}
             SOp::LogEvent { len } => {
-                if DATA_BASE as u64 + *len as u64 > MEM {
+                if DATA_BASE as u64 + *len as u64 > MEM * ctx.pages as u64 {
                     return MOutcome::Trap;
                 }
                 if *len <= MAX_LOG_SIZE {
@@ -1039,7 +1055,9 @@ fn model_run(plan: &VPlan, si: usize, st: &mut MState, ctx: &mut MCtx) -> MOutco
                     let saved_rv = std::mem::take(&mut ctx.rv);
                     ctx.logs = 0;
                     ctx.depth += 1;
+                    let saved_pages = std::mem::replace(&mut ctx.pages, 1);
                     let o = model_run(plan, *target, &mut inner, ctx);
+                    ctx.pages = saved_pages;
                     ctx.depth -= 1;
                     let _ = saved_logs;
                     // the caller's events were handed over at the interrupt: its count restarts
@@ -1110,6 +1128,17 @@ fn model_run(plan: &VPlan, si: usize, st: &mut MState, ctx: &mut MCtx) -> MOutco
                     }
                 }
                 model_response(resp, ctx)
+            }
+            SOp::MemGrow { pages } => {
+                // the host is paid for the announced pages before the growth is attempted
+                ctx.min_energy += 100 * *pages as u64;
+                if ctx.pages as u64 + *pages as u64 <= max_pages(plan) as u64 {
+                    let old = ctx.pages;
+                    ctx.pages += *pages;
+                    old as u64
+                } else {
+                    NONE32
+                }
             }
             SOp::Upgrade { resp } => {
                 ctx.min_energy += 500;
@@ -1206,7 +1235,7 @@ fn model_run(plan: &VPlan, si: usize, st: &mut MState, ctx: &mut MCtx) -> MOutco
                     8 | 9 => 32,
                     _ => *len as u64,
                 };
-                if *ptr as u64 + need > MEM {
+                if *ptr as u64 + need > MEM * ctx.pages as u64 {
                     return MOutcome::Trap;
                 }
                 // (minimised plans may move the pair back inside memory: then the result is not modelled)
@@ -1214,6 +1243,11 @@ fn model_run(plan: &VPlan, si: usize, st: &mut MState, ctx: &mut MCtx) -> MOutco
             }
         };
         res[i] = r;
+    }
+    if let (0, Some(k)) = (si, plan.tail_grow) {
+        ctx.min_energy += 100 * k as u64;
+        let rv = std::mem::take(&mut ctx.rv);
+        return MOutcome::Done(script.code, rv);
     }
     let mut dump = Vec::with_capacity(8 * n);
     for r in &res {
@@ -1747,6 +1781,10 @@ fn g_script(rng: &mut Rng, focus: VFocus, nscripts: usize, pool: &mut Vec<Vec<u8
                 }
             }
             4 => match rng.below(9) {
+                // (never together with an out-of-bounds operation: growth would move the bound)
+                7 if !oob_script && rng.chance(1, 3) => SOp::MemGrow {
+                    pages: *rng.pick(&[0u32, 1, 1, 2, 3, 511, 512, 513, 65535, 65536]),
+                },
                 7 | 8 => SOp::Env {
                     func: rng.below(ENV_FUNCS as u64) as u8,
                     len:  *rng.pick(&[0u32, 1, 31, 32, 64, 65, 136, 1000]),
@@ -1948,7 +1986,7 @@ fn viol(oracle: &str, sig: impl Into<String>, detail: String) -> Option<Violatio
 fn slot_in_focus(focus: VFocus, op: &SOp) -> bool {
     match focus {
         VFocus::Host | VFocus::Resume | VFocus::Energy => true,
-        VFocus::Handles => !matches!(op, SOp::ParamSize { .. } | SOp::ParamSection { .. } | SOp::LogEvent { .. } | SOp::WriteOutput { .. } | SOp::SelfBalance | SOp::OutOfBounds { .. } | SOp::Env { .. }),
+        VFocus::Handles => !matches!(op, SOp::ParamSize { .. } | SOp::ParamSection { .. } | SOp::LogEvent { .. } | SOp::WriteOutput { .. } | SOp::SelfBalance | SOp::OutOfBounds { .. } | SOp::Env { .. } | SOp::MemGrow { .. }),
     }
 }
 
@@ -1975,6 +2013,7 @@ fn op_name(op: &SOp) -> &'static str {
         SOp::InvokeSelf { .. } => "invoke(self)",
         SOp::InvokeOther { .. } => "invoke",
         SOp::Upgrade { .. } => "upgrade",
+        SOp::MemGrow { .. } => "memory.grow",
         SOp::Env { func, .. } => HOSTS[19 + (*func % ENV_FUNCS) as usize].0,
         SOp::OutOfBounds { .. } => "out-of-bounds",
         SOp::DeepCall { .. } => "deep-call",
@@ -2037,7 +2076,7 @@ pub fn execute(plan: &VPlan, rec: &mut Recorder) -> Option<Violation> {
             return Some(Violation::new("harness", "harness/module-rejected", format!("script module rejected: {:#}", e), 0));
         }
     };
-    simcore::alloc::set_dirty_limit((2 + plan.tail_grow.unwrap_or(0) as usize) * 65536);
+    simcore::alloc::set_dirty_limit((1 + max_pages(plan) as usize) * 65536);
     rec.op();
     rec.log_bytes(&bytes);
     if plan.tail_grow.is_some() {
@@ -2091,7 +2130,7 @@ pub fn execute(plan: &VPlan, rec: &mut Recorder) -> Option<Violation> {
 
     // ---- reference model (C14 / C15; for C13 only the frame budget across an interrupt) ----
     let has_deep = plan.scripts.iter().any(|s| s.ops.iter().any(|o| matches!(o, SOp::DeepCall { .. })));
-    if plan.focus == VFocus::Host || plan.focus == VFocus::Handles || (plan.focus == VFocus::Resume && has_deep) {
+    if plan.focus == VFocus::Host || plan.focus == VFocus::Handles || plan.focus == VFocus::Energy || (plan.focus == VFocus::Resume && has_deep) {
         let params = params_for(plan.protocol);
         let mut st = MState::default();
         for (k, v) in &plan.initial {
@@ -2111,6 +2150,7 @@ pub fn execute(plan: &VPlan, rec: &mut Recorder) -> Option<Violation> {
             sig_checks: params.support_account_signature_checks,
             inspection: params.support_contract_inspection_queries,
             sections: vec![Vec::new()],
+            pages: 1,
             mem: Vec::new(),
             min_energy: 0,
             rv: Vec::new(),
@@ -2120,7 +2160,23 @@ pub fn execute(plan: &VPlan, rec: &mut Recorder) -> Option<Violation> {
         let _ = ctx.plan;
         let mo = model_run(plan, 0, &mut st, &mut ctx);
         let pfx = if plan.focus == VFocus::Handles { "handles" } else { "host" };
-        if plan.focus == VFocus::Resume {
+        if plan.focus == VFocus::Energy {
+            // C02 at chain level: the scheduled charges of the host calls and memory growth that the
+            // transaction demonstrably made are a lower bound of what it was charged
+            if let (MOutcome::Done(..), ROutcome::Done { .. }) = (&mo, &r0.outcome) {
+                let used = plan.energy - r0.remaining;
+                if used < ctx.min_energy {
+                    return viol(
+                        "energy",
+                        "energy/undercharged",
+                        format!(
+                            "the transaction was charged {} energy, but the scheduled charges of its host calls and memory growth add up to at least {}",
+                            used, ctx.min_energy
+                        ),
+                    );
+                }
+            }
+        } else if plan.focus == VFocus::Resume {
             // An execution that nests n frames, is interrupted, and nests m more must hit the
             // activation-frame limit exactly when the same nesting without an interrupt would.
             let m_trap = matches!(mo, MOutcome::Trap);
@@ -2400,7 +2456,7 @@ fn state_key(r: &RunOut) -> Option<String> { r.state.as_ref().map(|(all, h)| for
 
 pub fn golden_make(plan: &VPlan) -> Option<crate::golden::VCase> {
     let art = compile_plan(plan)?;
-    simcore::alloc::set_dirty_limit(2 * 65536);
+    simcore::alloc::set_dirty_limit((1 + max_pages(plan) as usize) * 65536);
     let mut stored = Vec::new();
     art.output(&mut stored).ok()?;
     let r = run_once(plan, &Arc::new(art), plan.energy);
@@ -2418,7 +2474,7 @@ pub fn golden_make(plan: &VPlan) -> Option<crate::golden::VCase> {
 
 pub fn golden_check(case: &crate::golden::VCase, rec: &mut Recorder) -> Option<Violation> {
     let gv = |sig: &str, d: String| Some(Violation::new("old-artifact", sig, d, 0));
-    simcore::alloc::set_dirty_limit(2 * 65536);
+    simcore::alloc::set_dirty_limit((1 + max_pages(&case.plan) as usize) * 65536);
     let borrowed = match utils::parse_artifact::<ProcessedImports>(&case.stored) {
         Ok(b) => b,
         Err(e) => {
